@@ -7,6 +7,7 @@ mod model;
 mod monitors;
 mod refcodec;
 mod reply;
+mod requests;
 mod rng;
 mod runner;
 mod scripts;
